@@ -3,6 +3,7 @@
 # listfile lines: <name> <patch.diff> <Cxx>. Runs the quick tier of check Cxx against a scratch copy of /repo with the
 # patch applied, several at a time (own copy, own target directory, own VERIF_ROOT without the regression replays, so the
 # verdict comes from the generators alone). /repo itself is not touched. Prints one line per entry.
+# KEEP_REPLAYS=<dir> keeps the shrunk failing cases there (to be copied into replays/regress/).
 set -u
 LIST="$1"; JOBS="${2:-6}"
 W=/tmp/mutpar; mkdir -p $W
@@ -12,16 +13,26 @@ if [ ! -x $W/_seed/target/release/pkverif ]; then
   VERIF_ROOT=$W/_seed/root VERIF_REPO=$W/_seed/repo CARGO_TARGET_DIR=$W/_seed/target /verif/check C11 quick >/dev/null 2>&1
   rm -rf $W/_seed/target/release/incremental
 fi
-export W
+export W KEEP_REPLAYS
 run_one() {
   name="$1"; patch="$2"; id="$3"
   S=$W/$name; rm -rf $S; mkdir -p $S/root/replays
   rsync -a --exclude target --exclude .git /repo/ $S/repo/
   if ! (cd $S/repo && git apply "$patch" 2>/dev/null); then echo "$name $id PATCH-DOES-NOT-APPLY"; rm -rf $S; return; fi
   cp /verif/KNOWN_FINDINGS.txt $S/root/
-  cp -r $W/_seed/target $S/target
+  cp -a $W/_seed/target $S/target
   out=$(VERIF_ROOT=$S/root VERIF_REPO=$S/repo CARGO_TARGET_DIR=$S/target timeout 1200 /verif/check $id quick 2>&1); rc=$?
   echo "$name $id exit=$rc $(echo "$out" | grep -E "^(VIOLATION|BUILD|INCONCL)" | head -1 | cut -c1-80) | $(echo "$out" | grep -E "^  stage" | head -1 | cut -c1-220)"
+  if [ -n "${KEEP_REPLAYS:-}" ]; then
+    # keep the shrunk failing cases as regression replays: <dir>/<Cxx>-<name>-<stage>.json
+    for f in $S/root/replays/$id-*-seed*.json; do
+      [ -f "$f" ] || continue
+      stage=$(python3 -c "import json,sys;print(json.load(open('$f'))['stage'])")
+      case "$stage" in regress-*) continue;; esac
+      var=$(python3 -c "import json,sys;print(json.load(open('$f')).get('variant',''))")
+      mkdir -p "$KEEP_REPLAYS"; cp "$f" "$KEEP_REPLAYS/$id-$name-${var:+$var@}$stage.json"
+    done
+  fi
   rm -rf $S
 }
 export -f run_one
